@@ -34,7 +34,7 @@ def ensure():
     lock = open(os.path.join(OUT, '.lock'), 'w')
     fcntl.flock(lock, fcntl.LOCK_EX)
     try:
-        h = hashlib.sha256(b'recipe-5')
+        h = hashlib.sha256(b'recipe-6')
         for f in sorted(os.listdir(SRC)):
             h.update(f.encode()); h.update(open(os.path.join(SRC, f), 'rb').read())
         stamp = os.path.join(OUT, 'stamp')
@@ -48,6 +48,9 @@ def ensure():
                 libs['%s_v%d_nodbg' % (fam, v)] = os.path.join(OUT, 'lib%s_v%d_nodbg.so' % (fam, v))      # the same version built without debug info
         for v in (0, 1):
             libs['ties_v%d' % v] = os.path.join(OUT, 'libties_v%d.so' % v)     # same-named different types in two translation units, anonymous types
+        for v in (0, 1):
+            libs['tool_v%d' % v] = os.path.join(OUT, 'tool_v%d' % v)             # a position-independent executable exporting its symbols
+            libs['tool_v%d_nodbg' % v] = os.path.join(OUT, 'tool_v%d_nodbg' % v)
         for v in (0, 1):
             libs['ktree_v%d' % v] = os.path.join(OUT, 'ktree_v%d' % v)           # a directory: fake kernel image plus one module, for abidw --linux-tree
         libs['twice_v0'] = os.path.join(OUT, 'libtwice_v0.so')                 # one source compiled twice with different -D flags
@@ -69,6 +72,9 @@ def ensure():
             for tu in ('ties_a', 'ties_b'):
                 _sh(['gcc', '-g', '-O0', '-fPIC', '-DV=%d' % v, '-c', os.path.join(SRC, tu + '.c'), '-o', os.path.join(OUT, '%s_v%d.o' % (tu, v))])
             _sh(['gcc', '-shared', '-Wl,-soname,libties.so.1', os.path.join(OUT, 'ties_a_v%d.o' % v), os.path.join(OUT, 'ties_b_v%d.o' % v), '-o', libs['ties_v%d' % v]])
+        for v in (0, 1):
+            _sh(['gcc', '-g', '-O0', '-fPIE', '-pie', '-rdynamic', '-DV=%d' % v, os.path.join(SRC, 'tool.c'), '-o', libs['tool_v%d' % v]])
+            _sh(['gcc', '-O0', '-fPIE', '-pie', '-rdynamic', '-DV=%d' % v, os.path.join(SRC, 'tool.c'), '-o', libs['tool_v%d_nodbg' % v]])
         for v in (0, 1):
             os.makedirs(os.path.join(libs['ktree_v%d' % v], 'modules'), exist_ok=True)
             _sh(['gcc', '-g', '-O0', '-nostdlib', '-static', '-fno-pie', '-no-pie', '-DV=%d' % v, os.path.join(SRC, 'fakekernel.c'), '-o', os.path.join(libs['ktree_v%d' % v], 'vmlinux')])
